@@ -3,6 +3,7 @@ import Cvise.Proofs.PassesLines
 import Cvise.Proofs.BinaryNoSingle
 import Cvise.Proofs.PassesBalOffers
 import Cvise.Proofs.PassesTernTerm
+import Cvise.Proofs.PassesComments
 /-!
 # C07 — candidates are genuine, local edits of the current file
 
@@ -83,6 +84,11 @@ theorem ternary_sublist (arg : String) (harg : arg = "b" ∨ arg = "c") (s : Tex
   P.ternary_sublist arg harg s st hI out st' h
 theorem ternary_cursors_wellformed (s : Text) (pos : Int) (st : TernSt) (h : ternSearch s pos = some st) : TernI s st :=
   (ternSearch_spec s pos st h).2
+
+/-- comments: a produced candidate is the input with the matched comments deleted — a proper subsequence (every shipped
+    substitution has the empty replacement: `comments_subs_delete`, regenerated; `finditer` spans are in order and disjoint) -/
+theorem comments_candidate (s : Text) (st : Nat) (out : Text) (st' : Nat)
+    (h : comments.transform s st = (.ok, out, st')) : out.Sublist s ∧ out ≠ s := P.comments_candidate s _ st out st' h
 
 /-- all shipped arguments but one have no prefix expression -/
 theorem balanced_prefix_free : (Gen.balancedCfg.filter (fun x => x.2.2.2.1.isSome)).map (·.1) = ["curly3"] := by decide +kernel
